@@ -46,7 +46,12 @@
 #include <random>
 #include <sstream>
 #include <string>
+#include <chrono>
+#include <csignal>
+#include <sys/ioctl.h>
 #include <sys/stat.h>
+#include <thread>
+#include <unistd.h>
 #include <vector>
 
 using vh::json;
@@ -231,6 +236,48 @@ static RunResult run_pieces(const std::string& data, const std::string& fmt, con
         // bytes, i.e. the result depends on how the stream was cut (with one piece the parser sees everything)
         throw vh::Mismatch(-1, vh::json(static_cast<uint64_t>(data.size())), vh::json(static_cast<uint64_t>(g_bytes_out.load())), "a run that reported success read only part of the input (bytes handed out by the decompressor vs size of the stream)");
     }
+    return r;
+}
+
+// The same bytes read DIRECTLY from a descriptor (the path a plain .osm.pbf takes: PBFParser reads the descriptor itself
+// with read_exactly) where read(2) returns the data in the given pieces: a pipe fed by a writer thread that waits until
+// the reader has drained the pipe before it writes the next piece (short reads at exactly the planned cuts).
+static RunResult run_fifo(const std::string& data, const std::string& fmt, const std::vector<std::size_t>& plan) {
+    int fds[2];
+    if (::pipe(fds) != 0) throw std::runtime_error{"harness: pipe() failed"};
+    const int rfd = fds[0];
+    const int wfd = fds[1];
+    std::thread writer{[&data, &plan, rfd, wfd]() {
+        std::size_t pos = 0;
+        std::size_t k = 0;
+        while (pos < data.size()) {
+            std::size_t n = k < plan.size() ? plan[k] : data.size() - pos;
+            ++k;
+            if (n == 0) continue;
+            if (n > data.size() - pos) n = data.size() - pos;
+            std::size_t done = 0;
+            while (done < n) {
+                const ssize_t w = ::write(wfd, data.data() + pos + done, n - done);
+                if (w <= 0) { ::close(wfd); return; }          // reader gone (EPIPE is ignored below)
+                done += static_cast<std::size_t>(w);
+            }
+            pos += n;
+            // wait (bounded) until the reader has taken everything out of the pipe
+            for (int i = 0; i < 4000; ++i) {
+                int pending = 0;
+                if (::ioctl(rfd, FIONREAD, &pending) != 0 || pending == 0) break;
+                std::this_thread::sleep_for(std::chrono::microseconds(50));
+            }
+        }
+        ::close(wfd);
+    }};
+    RunResult r;
+    {
+        const osmium::io::File file{"/dev/fd/" + std::to_string(rfd), fmt};
+        r = read_all(file);
+    }
+    ::close(rfd);               // unblocks the writer if the reader stopped early
+    writer.join();
     return r;
 }
 #endif
@@ -744,6 +791,16 @@ static void replay_model_case(const json& c) {
     if (!got.same(one)) {
         throw vh::Mismatch(2, one.to_json(), got.to_json(), "result differs from the one-piece run of the same bytes; " + note);
     }
+#ifndef CHUNK_FD
+    // (3) PBF read directly from a descriptor whose read(2) calls return exactly these pieces (pipe / stdin / FIFO)
+    if (mod == "pbf" && verdict == "ok") {
+        vh::step_marker(3);
+        const RunResult fifo = run_fifo(data, fmt, plan);
+        if (!fifo.same(one)) {
+            throw vh::Mismatch(3, one.to_json(), fifo.to_json(), "descriptor path (read_exactly over a pipe with short reads) differs from the one-piece run of the same bytes; " + note);
+        }
+    }
+#endif
 }
 
 // ---- sweeps over real files
@@ -911,6 +968,7 @@ static void replay_fd(const json& c) {
 #endif
 
 int main() {
+    std::signal(SIGPIPE, SIG_IGN);
 #ifndef CHUNK_FD
     const bool registered = osmium::io::CompressionFactory::instance().register_compression(osmium::io::file_compression::gzip,
         [](int, osmium::io::fsync) -> osmium::io::Compressor* { return nullptr; },
